@@ -218,6 +218,35 @@ func stlDatePtr(s string) *time.Time {
 // input of the writer model, projected from the subtitles handed to WriteToSTL
 func encSTLWriteInput(e *enc, s *astisub.Subtitles) {
 	e.str(stlNowStr)
+	encSTLMetadataOnly(e, s)
+	e.n(len(s.Items))
+	for _, it := range s.Items {
+		e.i(int64(it.StartAt)).i(int64(it.EndAt))
+		if it.InlineStyle == nil || it.InlineStyle.STLJustification == nil {
+			e.n(0)
+		} else {
+			e.n(int(*it.InlineStyle.STLJustification) + 1)
+		}
+		if it.InlineStyle == nil || it.InlineStyle.STLPosition == nil {
+			e.n(0)
+		} else {
+			e.n(1).n(it.InlineStyle.STLPosition.VerticalPosition)
+		}
+		e.n(len(it.Lines))
+		for _, l := range it.Lines {
+			e.n(len(l.Items))
+			for _, li := range l.Items {
+				sa := li.InlineStyle
+				e.str(li.Text)
+				e.bool(sa != nil && sa.STLItalics != nil && *sa.STLItalics)
+				e.bool(sa != nil && sa.STLUnderline != nil && *sa.STLUnderline)
+				e.bool(sa != nil && sa.STLBoxing != nil && *sa.STLBoxing)
+			}
+		}
+	}
+}
+
+func encSTLMetadataOnly(e *enc, s *astisub.Subtitles) {
 	if m := s.Metadata; m == nil {
 		e.n(0)
 	} else {
@@ -245,31 +274,6 @@ func encSTLWriteInput(e *enc, s *astisub.Subtitles) {
 		od(m.STLRevisionDate)
 		e.n(m.STLRevisionNumber).str(m.STLSubtitleListReferenceCode).i(int64(m.STLTimecodeStartOfProgramme))
 		e.str(m.STLTranslatedEpisodeTitle).str(m.STLTranslatedProgramTitle).str(m.STLTranslatorContactDetails).str(m.STLTranslatorName)
-	}
-	e.n(len(s.Items))
-	for _, it := range s.Items {
-		e.i(int64(it.StartAt)).i(int64(it.EndAt))
-		if it.InlineStyle == nil || it.InlineStyle.STLJustification == nil {
-			e.n(0)
-		} else {
-			e.n(int(*it.InlineStyle.STLJustification) + 1)
-		}
-		if it.InlineStyle == nil || it.InlineStyle.STLPosition == nil {
-			e.n(0)
-		} else {
-			e.n(1).n(it.InlineStyle.STLPosition.VerticalPosition)
-		}
-		e.n(len(it.Lines))
-		for _, l := range it.Lines {
-			e.n(len(l.Items))
-			for _, li := range l.Items {
-				sa := li.InlineStyle
-				e.str(li.Text)
-				e.bool(sa != nil && sa.STLItalics != nil && *sa.STLItalics)
-				e.bool(sa != nil && sa.STLUnderline != nil && *sa.STLUnderline)
-				e.bool(sa != nil && sa.STLBoxing != nil && *sa.STLBoxing)
-			}
-		}
 	}
 }
 
@@ -777,6 +781,11 @@ func suiteStl(R *runner, r *rng) {
 		o.NT = len(x.cues) > 0
 		R.count("stl.write.metadata_" + strings.Fields(human["metadata"].(string))[0])
 		R.add(o)
+		if c%4 == 1 {
+			// the same cue list with nil elements in it, through the model of the Go-shaped list
+			R.count("stl.write.nil_item")
+			R.add(stlWriteNilObs(s, x, "stl.write.nil_item", human, c/4, false))
+		}
 	}
 	// the whole repertoire through the writer, under each display standard
 	for _, dsc := range []string{"0", "1", "2"} {
@@ -835,6 +844,10 @@ func suiteStl(R *runner, r *rng) {
 		o := stlWriteObs(s, nil, "stl.write.edge", map[string]interface{}{"what": "outside the round-trip proviso: model correspondence and panic oracle only"})
 		o.NT = true
 		R.add(o)
+		if c%4 == 1 {
+			R.count("stl.write.nil_item")
+			R.add(stlWriteNilObs(s, nil, "stl.write.nil_item", map[string]interface{}{"what": "edge cases with nil elements"}, c/4, c%8 == 5))
+		}
 	}
 	// nothing to write
 	{
@@ -845,6 +858,7 @@ func suiteStl(R *runner, r *rng) {
 
 	suiteStlFields(R, r, N)
 	suiteStlNeeds(R, r)
+	suiteStlOutside(R, r)
 }
 
 // read a generated file, write it again, decode: every timecode of a subtitle block is unchanged
